@@ -27,7 +27,7 @@ def budget(tier):
 
 def floor(tier):
     return dict(min_conclusive=30 if tier == "quick" else 500, min_nontrivial=16 if tier == "quick" else 60,
-                classes=CHAINS + ["xs", "empty", "none"], min_compared=500)  # fmt: skip
+                classes=CHAINS + ["xs", "empty", "none", "overwrite"], min_compared=500)  # fmt: skip
 
 
 def cases(tier, rng):
@@ -141,6 +141,35 @@ def run_case(case):
             if {k: v for k, v in pred.items()} != {k: v for k, v in pred0.items()}:
                 viol.append(dict(sig=f"roundtrip-prediction|{'tar' if fmt=='t' else 'yaml'}", what=f"{stage}: predictions for a test PDF differ from the original output's"))
             compared += sum(len(v) for v in pred0.values())
+        # history: a loader must read the file it is given, whatever was dumped to or loaded from the same path before. A sibling output
+        # (same shape, different numbers and card) is written over the last path used and read back (tar and YAML files alike).
+        if not viol:
+            import copy
+
+            sib = copy.deepcopy(orig)
+            sib.theory["Comments"] = "sibling output written over the same path"
+            for k in obsd:
+                for r in sib[k] or []:
+                    for o in list(r.orders):
+                        v, e = r.orders[o]
+                        r.orders[o] = (np.asarray(v) * 1.5 + 0.25, np.asarray(e) * 2.0)
+            for fmt in ("t", "y"):
+                path = os.path.join(tmp, "same.tar" if fmt == "t" else "same.yaml")
+                try:
+                    for obj in (orig, sib):
+                        if fmt == "t":
+                            obj.dump_tar(path)
+                            back = Output.load_tar(path)
+                        else:
+                            obj.dump_yaml_to_file(path)
+                            back = Output.load_yaml_from_file(path)
+                except Exception as e:
+                    viol.append(dict(sig=f"roundtrip-raises|{'tar' if fmt=='t' else 'yaml'}-file|{run.exc_sig(e)}", what=f"dump/load through the file {os.path.basename(path)} raised {type(e).__name__}: {e}"))
+                    continue
+                for kind_, msg in compare(sib, back, f"second output written over {os.path.basename(path)}"):
+                    viol.append(dict(sig=f"roundtrip-history|{'tar' if fmt=='t' else 'yaml'}|{kind_}", what=msg + " (the file was overwritten with a different output of the same shape after a first dump/load cycle)"))
+                compared += sum(len(v) for k, v in orig.items() if isinstance(v, list) and k in obsd) + 6
+            classes.add("overwrite")
     finally:
         shutil.rmtree(tmp, ignore_errors=True)
     nz = any(run.absmax(v[0]) > 0 for k in obsd for r in (orig[k] or []) for v in r.orders.values())
